@@ -2260,9 +2260,30 @@ class VM:
             pos = min(max(pos, 0), len(s))  # clamped, not relative to the end
             return search in s[pos:]
 
-        def replace(*args):
+        def replacement_for(replacer, template, matched, groups, index):
+            """The text that replaces one match: computed by a replacer
+            function, called as replacer(match, p1, ..., pn, offset, string),
+            or expanded from the template."""
+            if replacer is None:
+                return expand_replacement(template, matched, index, s, groups)
+            captures = [UNDEFINED if g is None else g for g in groups]
+            value = self._call_callback(
+                replacer, [matched, *captures, index, s], UNDEFINED
+            )
+            if isinstance(value, JSObject):
+                return self._object_to_string(value)
+            return to_string(value)
+
+        def replace_arguments(args):
+            """(pattern, replacer function or None, replacement template)."""
             pattern = args[0] if args else UNDEFINED
-            replacement = to_string(args[1]) if len(args) > 1 else "undefined"
+            second = args[1] if len(args) > 1 else UNDEFINED
+            if isinstance(second, JSFunction) or callable(second):
+                return pattern, second, ""
+            return pattern, None, to_string(second)
+
+        def replace(*args):
+            pattern, replacer, replacement = replace_arguments(args)
 
             if isinstance(pattern, JSRegExp):
                 # Replace with regex using microjs.regex
@@ -2273,12 +2294,12 @@ class VM:
 
                     def handle_replacement(match_result):
                         groups = [match_result[i] for i in range(1, capture_count)]
-                        return expand_replacement(
+                        return replacement_for(
+                            replacer,
                             replacement,
                             match_result[0] or "",
-                            match_result.index,
-                            s,
                             groups,
+                            match_result.index,
                         )
 
                     result_parts = []
@@ -2318,19 +2339,18 @@ class VM:
                 # Find first occurrence and replace
                 idx = s.find(search)
                 if idx >= 0:
-                    repl = expand_replacement(replacement, search, idx, s, [])
+                    repl = replacement_for(replacer, replacement, search, [], idx)
                     return s[:idx] + repl + s[idx + len(search) :]
                 return s
 
         def replaceAll(*args):
-            pattern = args[0] if args else UNDEFINED
-            replacement = to_string(args[1]) if len(args) > 1 else "undefined"
+            pattern, replacer, replacement = replace_arguments(args)
 
             if isinstance(pattern, JSRegExp):
                 # replaceAll with regex requires global flag
                 if "g" not in pattern._flags:
                     raise JSTypeError("replaceAll called with a non-global RegExp")
-                return replace(pattern, replacement)
+                return replace(*args)
             else:
                 # String replaceAll - replace all occurrences
                 search = to_string(pattern)
@@ -2341,7 +2361,9 @@ class VM:
                 idx = s.find(search)
                 while idx >= 0:
                     parts.append(s[last_end:idx])
-                    parts.append(expand_replacement(replacement, search, idx, s, []))
+                    parts.append(
+                        replacement_for(replacer, replacement, search, [], idx)
+                    )
                     last_end = idx + len(search)
                     if idx >= len(s):
                         break
